@@ -281,6 +281,16 @@ CircuitExec::StageRun CircuitExec::runStage(Circuit &c, int opIndex, const Op &o
     noteState(h);
     tr_.ev(tag + " cb" + std::to_string(k) + " " + stepName(step) + " " + hex64(h));
     stat(std::string("cb_") + stepName(step));
+    {
+      // what an observing callback typically does: read-only queries
+      Outcome q = guarded([&] {
+        (void)c.toString();
+        (void)c.computePlacementArea();
+        if ((k & 3) == 0) (void)c.computeRows().size();
+        if ((k & 7) == 1) (void)c.report();
+      });
+      (void)q;
+    }
     if (r.callbacks > budget + 2) {
       r.liveness = true;
       verdict("C07", "liveness-budget", tag + ": more than " + std::to_string(budget) +
